@@ -3,6 +3,7 @@
 from __future__ import annotations
 
 import inspect
+import os
 import random
 import sys
 import threading
@@ -21,7 +22,7 @@ RULE = (
     "set_cell_ratio(FIXED | DYNAMIC | float), reads of get_cell_size / get_cell_ratio / a terminal_size_cached "
     "probe / a cached probe / starting a subprocess (odd shards; the library then moves its cache and lock into "
     "shared memory)} on a real pty (pixel size by ioctl, or zero so that the scripted terminal answers "
-    "XTWINOPS), compared step by step with a model of what a fresh computation gives; plus thread stress: 2..16 "
+    "XTWINOPS; half of the shard kinds with an inherited TERM_PROGRAM, which the library goes by while queries are disabled), reads of iterm2- and kitty-style support, compared step by step with a model of what a fresh computation gives; plus thread stress: 2..16 "
     "threads released by a barrier make simultaneous first calls of memoized probes under line-level yield "
     "injection (sys.monitoring) and the body executions are counted; distinct = distinct histories / stress "
     "configurations"
@@ -40,8 +41,15 @@ SHARDS = 16
 
 def plan(tier, seed):
     # (some shards under a kitty identity: what the text styles derive from the terminal's
-    # name -- the kitty background workaround -- is a cached terminal fact too)
-    return [dict(persona="other", persona_kw=dict(cell_px=None, area_px=None, name=("foot", "foot", "kitty", "WezTerm")[i % 4], version=("1.16", "1.16", "0.30.1", "20230712-072601")[i % 4], xtversion=True, fg=[1, 2, 3], bg=[250, 251, 252]), seed=seed, index=i, hists=N_HIST[tier], stress=N_STRESS[tier], winsize=[80, 24, 640, 384]) for i in range(SHARDS)]
+    # name -- the kitty background workaround -- is a cached terminal fact too; some with an
+    # inherited TERM_PROGRAM, which is what the library goes by while queries are disabled)
+    shards = []
+    for i in range(SHARDS):
+        name = ("foot", "foot", "kitty", "WezTerm")[i % 4]
+        kw = dict(cell_px=None, area_px=None, name=name, version=("1.16", "1.16", "0.30.1", "20230712-072601")[i % 4], xtversion=True, fg=[1, 2, 3], bg=[250, 251, 252], kitty_graphics=name == "kitty")
+        env_tp = {1: ["WezTerm", "20230712"], 6: ["iTerm2", "3.4.19"], 7: ["vscode", None], 4: ["kitty", "0.31.0"]}.get(i % 8)
+        shards.append(dict(persona="other", persona_kw=kw, env_tp=env_tp, seed=seed, index=i, hists=N_HIST[tier], stress=N_STRESS[tier], winsize=[80, 24, 640, 384]))
+    return shards
 
 
 class Model:
@@ -55,6 +63,8 @@ class Model:
         self.memo = {}  # memoized query helpers: None | "enabled" | "disabled"
         self.support = None  # auto cell ratio support: None (undetermined) | True | False
         self.style_support = None  # iterm2-style support once determined for good (None: not yet)
+        self.kitty_support = None  # kitty-style support once determined for good
+        self.env_tp = None  # inherited (TERM_PROGRAM, TERM_PROGRAM_VERSION)
         self.cached_while_disabled = False
 
     def fresh_cell(self):
@@ -70,6 +80,18 @@ class Model:
 
     def invalidate(self):
         self.cache = None
+
+    def lib_name(self, p):
+        """(name, version) the library goes by now: the terminal's own answer when the
+        name was (or will now be) obtained by query, the inherited environment otherwise.
+        Records when the memo gets filled."""
+        slot = self.memo.setdefault("read_name", None)
+        via_query = (slot != "disabled") if self.queries else (slot == "enabled")
+        if slot is None:
+            self.memo["read_name"] = "enabled" if self.queries else "disabled"
+        if via_query:
+            return p.name.lower(), p.version
+        return (self.env_tp[0].lower(), self.env_tp[1]) if self.env_tp else (None, None)
 
     def acceptable_cell(self):
         """Values get_cell_size() may return now."""
@@ -104,13 +126,19 @@ def start_subprocess(res):
     res.count("subprocesses started between reads")
 
 
-def run_history(seed, env, res, probes, allow_subprocess=False):
+def run_history(seed, env, res, probes, allow_subprocess=False, env_tp=None):
     import term_image
     from term_image import AutoCellRatio, utils
     from term_image.exceptions import TermImageError
 
     rnd = random.Random(seed)
     m = Model()
+    m.env_tp = env_tp
+    for var, val in zip(("TERM_PROGRAM", "TERM_PROGRAM_VERSION"), env_tp or (None, None)):
+        if val is None:
+            os.environ.pop(var, None)
+        else:
+            os.environ[var] = val
     p = env.persona
     ops = []
     case = dict(seed=seed, sub=allow_subprocess, after_process_start=_STARTED[0])
@@ -128,12 +156,14 @@ def run_history(seed, env, res, probes, allow_subprocess=False):
     AutoCellRatio.is_supported = None  # documented as settable: undetermined
     from term_image.image import ITerm2Image as _I2
 
-    _I2._supported = None  # (state hygiene between histories: style support undetermined)
+    from term_image.image import KittyImage as _KI
+
+    _I2._supported = _KI._supported = None  # (state hygiene between histories: style support undetermined)
     probes.reset()
     sizes_seen = []
     steps = rnd.randint(5, 40)
     for step in range(steps):
-        op = rnd.choice(["resize", "resize", "resize_back", "resize_back", "pixels", "swap_on", "swap_off", "q_on", "q_off", "ratio", "xt", "read", "read", "read", "read_ratio", "probe", "probe", "probe_resize", "read_colours", "read_name", "read_on_kitty", "read_support", "read_interrupted"] + (["subprocess"] if allow_subprocess else []))
+        op = rnd.choice(["resize", "resize", "resize_back", "resize_back", "pixels", "swap_on", "swap_off", "q_on", "q_off", "ratio", "xt", "read", "read", "read", "read_ratio", "probe", "probe", "probe_resize", "read_colours", "read_name", "read_on_kitty", "read_support", "read_kitty_support", "read_interrupted"] + (["subprocess"] if allow_subprocess else []))
         ops.append(op)
         if m.term[:2] not in sizes_seen:
             sizes_seen.append(m.term[:2])
@@ -287,43 +317,54 @@ def run_history(seed, env, res, probes, allow_subprocess=False):
 
             got = BlockImage._is_on_kitty()
             res.count("reads compared with the model")
-            kitty = p.name.lower() == "kitty"
-            slot = m.memo.setdefault("read_name", None)
-            if m.queries:
-                want = False if slot == "disabled" else kitty
-            else:
-                want = kitty if slot == "enabled" else False
+            slot = m.memo.get("read_name")
+            want = m.lib_name(p)[0] == "kitty"
             if got != want:
                 fail("stale-query-result", "TextImage._is_on_kitty() = %r, a fresh computation gives %r (terminal says %r; queries %s, name obtained while %s)" % (got, want, p.name, "enabled" if m.queries else "disabled", slot))
                 return
-            if slot is None:
-                m.memo["read_name"] = "enabled" if m.queries else "disabled"
         elif op == "read_support":
-            # iterm2-style support follows from the terminal's name (WezTerm: supported): a
-            # positive finding may be kept for good, a negative one obtained while queries
+            # iterm2-style support follows from the terminal's name (WezTerm / iTerm2:
+            # supported), which is the inherited TERM_PROGRAM while queries are disabled: a
+            # finding made with queries enabled may be kept for good, one made while they
             # were disabled must not survive enable_queries()
             from term_image.image import ITerm2Image
 
             got = ITerm2Image.is_supported()
             res.count("reads compared with the model")
-            slot = m.memo.setdefault("read_name", None)
+            slot = m.memo.get("read_name")
             if m.style_support is not None:
-                want = m.style_support  # determined for good (positive, or negative with queries on)
+                want = m.style_support  # determined with queries enabled
             else:
-                name_known = (slot != "disabled") if m.queries else (slot == "enabled")
-                want = name_known and p.name.lower() == "wezterm"
-                if slot is None:
-                    # the determination asked for the terminal's name
-                    m.memo["read_name"] = "enabled" if m.queries else "disabled"
-                if want or m.queries:
+                want = m.lib_name(p)[0] in ("wezterm", "iterm2")
+                if m.queries:
                     m.style_support = want
             if got != want:
-                fail("stale-query-result", "ITerm2Image.is_supported() = %r, a fresh determination gives %r (terminal says %r; queries %s, name obtained while %s)" % (got, want, p.name, "enabled" if m.queries else "disabled", slot))
+                fail("stale-query-result", "ITerm2Image.is_supported() = %r, a fresh determination gives %r (terminal says %r, TERM_PROGRAM %r; queries %s, name obtained while %s)" % (got, want, p.name, m.env_tp and m.env_tp[0], "enabled" if m.queries else "disabled", slot))
+                return
+        elif op == "read_kitty_support":
+            # kitty-style support needs the terminal's reply: never while queries are
+            # disabled, and what was found then must not survive enable_queries()
+            from term_image.image import KittyImage
+
+            got = KittyImage.is_supported()
+            res.count("reads compared with the model")
+            slot = m.memo.get("read_name")
+            if m.kitty_support is not None:
+                want = m.kitty_support
+            elif not m.queries:
+                want = False
+                m.lib_name(p)  # (the determination asks for the terminal's name first)
+            else:
+                name, version = m.lib_name(p)
+                want = name != "iterm2" and bool(p.kitty_graphics) and name == "kitty"
+                m.kitty_support = want
+            if got != want:
+                fail("stale-query-result", "KittyImage.is_supported() = %r, a fresh determination gives %r (terminal says %r, TERM_PROGRAM %r; queries %s, name obtained while %s)" % (got, want, p.name, m.env_tp and m.env_tp[0], "enabled" if m.queries else "disabled", slot))
                 return
         elif op in ("read_colours", "read_name"):
             # memoized query results: what was obtained while queries were disabled must
             # not survive re-enabling them
-            fn, scripted, default = (utils.get_fg_bg_colors, ((1, 2, 3), (250, 251, 252)), (None, None)) if op == "read_colours" else (utils.get_terminal_name_version, (p.name.lower(), p.version), (None, None))
+            fn, scripted, default = (utils.get_fg_bg_colors, ((1, 2, 3), (250, 251, 252)), (None, None)) if op == "read_colours" else (utils.get_terminal_name_version, (p.name.lower(), p.version), (m.env_tp[0].lower(), m.env_tp[1]) if m.env_tp else (None, None))
             got = tuple(fn())
             res.count("reads compared with the model")
             slot = m.memo.setdefault(op, None)
@@ -565,12 +606,12 @@ def run_shard(shard, env):
             else:
                 if c.get("after_process_start"):
                     start_subprocess(res)
-                run_history(c["seed"], env, res, probes, c.get("sub", False))
+                run_history(c["seed"], env, res, probes, c.get("sub", False), shard.get("env_tp"))
             return res.as_dict()
         rnd = random.Random("%s/c15/%s" % (shard["seed"], shard["index"]))
         for _ in range(shard["hists"]):
             seed = rnd.getrandbits(40)
-            run_history(seed, env, res, probes, shard["index"] % 2 == 1)
+            run_history(seed, env, res, probes, shard["index"] % 2 == 1, shard.get("env_tp"))
             if len(res.samples) < 2:
                 res.sample(dict(seed=seed, kind="history"))
             if res.too_many():
